@@ -235,7 +235,10 @@ def await_loop_invariant(contract_getter):
         clauses.append((f"{name}.position_in_bounds", z3.And(pos >= 0, pos <= z3.Length(inc))))
         # exactly the request has been written (plus nothing else while no cancellation happened)
         w = c.written(I)
-        clauses.append((f"{name}.only_the_request_written", z3.Length(w) == 1))
+        if phase == "entry":
+            I.ghost["written_at_loop_entry"] = w
+        clauses.append((f"{name}.only_the_request_written",
+                        z3.And(z3.Length(w) == 1, w == I.ghost["written_at_loop_entry"])))
         extra = getattr(c, "extra_invariant", None)
         if extra is not None:
             clauses.extend(extra(I, phase))
